@@ -29,6 +29,7 @@ from boltons import funcutils  # noqa: E402
 P = inspect.Parameter
 warnings.simplefilter('ignore', RuntimeWarning)  # un-awaited coroutines of a broken async wrapper
 NPOS = [3]
+DEFAULT_OF = [lambda n: 'd' + n]      # default value of parameter n; a second pass gives every parameter the SAME default
 HDR = 'import inspect\nfrom boltons.funcutils import wraps, update_wrapper\n'
 ANN = {'a': 'int', 'b': 'str', 'e': 'list', 'k': 'float', 'm': 'bytes', 'args': 'int', 'kw': 'str'}
 
@@ -55,7 +56,7 @@ def source(spec, name='f'):
             s += ': ' + ANN[n]
         if not star:
             first[0] = False
-        return s + ('=%r' % ('d' + n) if d else '')
+        return s + ('=%r' % DEFAULT_OF[0](n) if d else '')
     parts = [one(n, d) for n, d in pos]
     if va:
         parts.append(one('args', 0, '*'))
@@ -328,6 +329,35 @@ def run():
             variant_multi(H, spec, f, src, pair)
         variant(H, spec, f, src, 'exp', 'c', None)
         variant(H, spec, f, src, 'exp', 'c', 'dc')
+    # second pass: every defaulted parameter carries the same default value (defaults can then not be told apart by value,
+    # so any realignment that goes by value instead of by parameter shows)
+    DEFAULT_OF[0] = lambda n: 'same'
+    for spec in specs(H.thorough):
+        pos, va, kwo, vk, ann, asy, doc = spec
+        if asy or ann != 'none' or sum(d for _, d in pos + kwo) < 2:
+            continue
+        src = source(spec)
+        f = make(spec)
+        plain(H, spec[:6] + (2,), f, src, 'wraps')
+        for n, _ in pos + kwo:
+            variant(H, spec[:6] + (2,), f, src, 'inj', n, None)
+        variant(H, spec[:6] + (2,), f, src, 'exp', 'c', None)
+        variant(H, spec[:6] + (2,), f, src, 'exp', 'c', 'same')
+    DEFAULT_OF[0] = lambda n: 'd' + n
+    # directed: equal defaults that are NOT adjacent (a different one in between), positional and keyword-only
+    for params, pos, kwo in [("a='x', b='y', e='x'", (('a', 1), ('b', 1), ('e', 1)), ()),
+                             ("a='x', b='x', e='y'", (('a', 1), ('b', 1), ('e', 1)), ()),
+                             ("a, b='x', e='y', k='x'", (('a', 0), ('b', 1), ('e', 1), ('k', 1)), ()),
+                             ("a='x', b='y', *, k='x', m='y'", (('a', 1), ('b', 1)), (('k', 1), ('m', 1)))]:
+        spec = (pos, 0, kwo, 0, 'none', 0, 3)
+        src = 'def f(%s):\n    "doc of f"\n    return locals()\n' % params
+        ns = {'__name__': 'c13_family'}
+        exec(src, ns)
+        f = ns['f']
+        plain(H, spec, f, src, 'wraps')
+        for n, _ in pos + kwo:
+            variant(H, spec, f, src, 'inj', n, None)
+        variant(H, spec, f, src, 'exp', 'c', 'x')
     # functions without a docstring and lambdas: metadata + signature + calls on a few signatures
     for pos, kwo in [((), ()), ((('a', 0), ('b', 1)), ()), ((('a', 0),), (('k', 1),)), ((('a', 1),), (('k', 0), ('m', 1)))]:
         spec = (pos, 1, kwo, 1, 'none', 0, 0)
